@@ -18,6 +18,7 @@ def it_next(vm, it):
     if isinstance(it, CharIdx): return charidx_next(vm, it, True)
     if not isinstance(it, It):
         if isinstance(it, (Adt, SymEnum)):      # a crate type implementing Iterator
+            if not vm.mir.by_impl.get(('Iterator', it.ty, 'next')): raise Unmodelled(f'next on a non-iterator value {it!r}'[:200])
             r = conc(vm, call_trait(vm, it.ty, 'Iterator', 'next', [Ref(Cell(it))]))
             return (r.fields[0],) if r.variant == 1 else None
         raise Unmodelled(f'next on {it!r}')
